@@ -1019,6 +1019,11 @@ func (s *sim) cmd(idx int, st Step) string {
 			}
 		case st.Cmd == "check" || st.Cmd == "show":
 			s.judgeCheckShow(st, res, stderr, fr, okT, badT, typeErrT, badSet, fired)
+			if (s.e.Prop == "C19" || s.e.Prop == "all") && len(T) >= 2 && len(T) <= 4 && len(fired) == 0 && !st.NoGo && len(typeErrT) == 0 && !panicked {
+				if infra := s.composition(idx, st, T, res); infra != "" {
+					return infra
+				}
+			}
 		}
 	}
 
